@@ -63,6 +63,7 @@ class FnInfo:
         self._reach: T.Dict[T.Tuple[int, T.FrozenSet[int]], T.Set[int]] = {}
         self.attr_stores: T.List[T.Tuple[Node, str, ast.AST]] = []
         self._mut: T.Optional[T.Dict[str, T.List[T.Tuple[Node, ast.Call]]]] = None
+        self._loc: T.Optional[T.Dict[int, T.List[Node]]] = None
 
     @property
     def cfg(self) -> CFG:
@@ -213,13 +214,33 @@ class FnInfo:
         return out
 
     def node_of(self, sub: ast.AST) -> Node:
-        ns = self.cfg.node_containing(sub)
+        ns = self.nodes_of(sub)
         if not ns:
             raise Undecided(f'{self.qn}: construct `{short(sub, 60)}` is not on the control-flow graph (unreachable or nested)')
         return ns[0]
 
     def nodes_of(self, sub: ast.AST) -> T.List[Node]:
-        return self.cfg.node_containing(sub)
+        # same answer as cfg.node_containing(sub), from an index built once per function
+        if self._loc is None:
+            loc: T.Dict[int, T.List[Node]] = {}
+            for n in self.cfg.nodes:
+                e = n.expr()
+                if e is None:
+                    continue
+                if n.kind == 'with_enter':
+                    roots: T.List[ast.AST] = list(n.ast.items)  # type: ignore[union-attr]
+                elif n.kind == 'iter':
+                    roots = [n.ast.iter, n.ast.target]  # type: ignore[union-attr]
+                else:
+                    roots = [e]
+                seen: T.Set[int] = set()
+                for r in roots:
+                    for x in walk_no_nested(r):
+                        if id(x) not in seen:
+                            seen.add(id(x))
+                            loc.setdefault(id(x), []).append(n)
+            self._loc = loc
+        return self._loc.get(id(sub), [])
 
 
 class Infos:
